@@ -282,6 +282,51 @@ impl World {
 }
 
 
+/// `wq-race n`: a fresh accept loop without workers; another thread hands it `n` worker handles (`Worker(handle)`
+/// interests through `WakerQueue::wake`, as the server does for replacements) as fast as it can WHILE this thread runs
+/// loop iterations. Every interest whose `wake` call returned must be processed: afterwards the loop knows `n` handles.
+/// Returns (handles known to the loop, interests left in the queue after the drain).
+fn run_wq_race(n: usize) -> Result<(usize, usize), String> {
+    let l = std::net::TcpListener::bind("127.0.0.1:0").map_err(|e| format!("bind: {e}"))?;
+    let mut waker_h = None;
+    let (mut driver, _frx) = AcceptDriver::new(vec![ListenerSpec::Tcp(l)], |waker| {
+        waker_h = Some(waker.clone());
+        vec![]
+    })
+    .map_err(|e| format!("driver: {e}"))?;
+    let waker = waker_h.unwrap();
+    let mut keep = vec![];
+    let mut handles = vec![];
+    for i in 0..n {
+        let (h, stop, ends) = hooks::worker_ends(i, &waker, 1);
+        keep.push((stop, ends));
+        handles.push(h);
+    }
+    let done = Arc::new(std::sync::atomic::AtomicBool::new(false));
+    let (d2, w2) = (done.clone(), waker.clone());
+    let t = std::thread::spawn(move || {
+        for (k, h) in handles.into_iter().enumerate() {
+            w2.worker(h);
+            // leave the loop time to start (and finish) a drain between two pushes: the more drains end while the
+            // producer is active, the more often a push meets the end of a drain
+            for _ in 0..(k % 7) * 40 {
+                std::hint::spin_loop();
+            }
+        }
+        d2.store(true, Ordering::SeqCst);
+    });
+    let t0 = std::time::Instant::now();
+    while !done.load(Ordering::SeqCst) && t0.elapsed() < Duration::from_secs(30) {
+        driver.step();
+    }
+    t.join().map_err(|_| "producer panicked".to_string())?;
+    for _ in 0..4 {
+        driver.step();
+    }
+    let st = driver.state(n);
+    Ok((st.handles.len(), waker.queued()))
+}
+
 static NOFILE_SAVED: std::sync::Mutex<Option<libc::rlimit>> = std::sync::Mutex::new(None);
 
 /// no file descriptor can be allocated in this process until `nofile_restore` (existing ones keep working)
@@ -1208,6 +1253,21 @@ fn run(a: &Args) {
                     }
                     _ => "bad-op".into(),
                 },
+                ["wq-race", n, r] => match (n.parse::<usize>(), r.parse::<usize>()) {
+                    (Ok(n), Ok(r)) if (1..=512).contains(&n) && (1..=5000).contains(&r) => match (0..r).try_fold((n, 0), |acc, _| run_wq_race(n).map(|(k, l)| if k != n || l != 0 { (k, l) } else { acc })) {
+                        Ok((known, left)) => {
+                            if known != n || left != 0 {
+                                let msg = format!("{n} interests were handed to WakerQueue::wake (every call returned) while the accept loop was running, but the loop processed only {known} of them ({left} still queued): a command / notification pushed while the loop was finishing a drain was lost");
+                                for p in ["C05", "C03", "C08", "C06"] {
+                                    rep.t3(p, &msg);
+                                }
+                            }
+                            format!("handles={known} queued={left}")
+                        }
+                        Err(e) => format!("setup-error {e}"),
+                    },
+                    _ => "bad-op".into(),
+                },
                 ["k-offset", i] => match i.parse::<usize>() {
                     Ok(i) => match catch(|| hooks::kernel_offset(i)) {
                         Ok((o, j)) => {
@@ -2109,6 +2169,18 @@ fn gen(a: &Args) {
         writeln!(w, "poll").unwrap();
         writeln!(w, "poll").unwrap();
         writeln!(w, "poll").unwrap();
+    }
+    if matches!(prop, "C05" | "C03" | "C08" | "C06") {
+        // interests pushed by another thread WHILE the loop drains its queue are all processed (seed13 C05-25 dropped
+        // the queue's lock between the empty pop and the reset)
+        writeln!(w, "case waker-queue-race workers=1 limit=1 listeners=tcp").unwrap();
+        for (n, r) in if thorough { vec![(512usize, 3000usize), (300, 1000), (64, 2000), (1, 200)] } else { vec![(512usize, 400usize), (64, 400)] } {
+            writeln!(w, "wq-race {n} {r}").unwrap();
+        }
+        writeln!(w, "wq-race 0 1").unwrap();
+        writeln!(w, "wq-race 513 1").unwrap();
+        writeln!(w, "wq-race 5 0").unwrap();
+        writeln!(w, "wq-race 5").unwrap();
     }
     if matches!(prop, "C05" | "C03") {
         // the process REALLY runs out of file descriptors (RLIMIT_NOFILE lowered for one iteration): accept(2) itself
